@@ -117,6 +117,10 @@ def run(repo, rep):
                     out += ['AssociationRejectedError', 'Exception']
                 if t.endswith('dul.receive'):
                     out += ['DCMTimeoutError']
+        # bookkeeping on the way (statistics, audit records) that looks a peer- or application-given value up in a constant table
+        # fails for every value outside the table -- before reject() is reached
+        from ..excmodel import const_table_keyerror
+        out += const_table_keyerror(node, client)
         return out
     c = SymClient(repo, est, event_of=ev, hierarchy=hier, raises_of=est_raises, store_event=lambda t: t == 'self.association_established')
     fin = c.final_states(c.run(empty_state()))
@@ -129,7 +133,9 @@ def run(repo, rep):
             n_rej += 1
             rj = [e for e in s.trail if e.kind == 'reject']
             if len(rj) != 1:
-                probs.append('%d reject() calls on the refusal path' % len(rj))
+                probs.append('%d reject() calls on the refusal path%s' % (len(rj), ' (the path ends with %s: a look-up of the result in a '
+                                                                            'constant table on the way fails for values outside it, so no '
+                                                                            'A-ASSOCIATE-RJ is sent)' % how[6:] if how == 'raise:KeyError' else ''))
             else:
                 hv = [cn for cn in s.conds if cn.startswith('exc:')]
                 args = rj[0].args
